@@ -4,6 +4,7 @@ from __future__ import annotations
 import contextlib
 import signal
 import time
+import warnings
 
 import numpy as np
 
@@ -28,7 +29,17 @@ RULE = ('surfaces: round-robin over 11 shift-vector classes (rectangular/oblique
         'finite-difference and stress flags; K tensor via load(); gamma-surface data via gamma.set(); solve() with every setting as a '
         'keyword), first kind = case index mod 12, stride 1/5/7/11, x and disregistry passed as arguments or stored on the object in turn; '
         'after construction and after every change each of the six terms and the total are judged against the oracle evaluated for the '
-        'settings REQUESTED so far and against a freshly constructed object.  A case is non-trivial when the data are '
+        'settings REQUESTED so far and against a freshly constructed object.  Ownership (gsown / pnown): data, vectors, settings, grid and '
+        'profile are handed over as own float64 arrays / rows of a 2-D table / strided columns / pandas Series (plain or shuffled index) / float32 / '
+        'lists / tuples / the lists of a data model, through the constructor / set() on an empty object / set() on a used object / model= '
+        '(SDVPN: constructor / setters / solve(keywords) / model=); then the caller overwrites in place (scale / other data / zeros, by case index) '
+        'one at a time every array it handed over, every array a read-only attribute handed out (a1vect, a2vect, planenormal; K_tensor, burgers, '
+        'transform) and every returned result, builds a second object from fresh data and a third from the SAME data buffers, constructs a '
+        'default SDVPN after a customised one and after editing another default object\'s stress / beta in place; after every step the FIRST object is '
+        're-judged for the numbers it was given (stored data and geometry, node reproduction, identical answers at fixed queries, periodicity, conversions '
+        'against the oracle, model round trip; SDVPN: stored settings, six terms and total against the oracle for the pristine settings and against its own '
+        'earlier values) and the new objects against the oracle and an untouched twin; fractional coordinates as Python ints, int lists / arrays, float32 '
+        'arrays and tuples.  A case is non-trivial when the data are '
         'not constant and the shift vectors are neither unit Cartesian axes; distinct = fingerprint of the inputs.')
 ASSUMPTIONS = ['gamma-surface data are periodic (a duplicated a=1 edge carries the a=0 values) on uniform grids that contain 0',
                'node tolerance 1e-8 of the data range (observed < 1e-12); periodicity / coordinate-interchange tolerance 1e-10 of the range x basis condition number '
@@ -44,6 +55,14 @@ ASSUMPTIONS = ['gamma-surface data are periodic (a duplicated a=1 edge carries t
                '(E_gsf(pos=, a1vect=..) and E_gsf(x=, y=, a1vect=..) are judged by that; see KNOWN_FINDINGS)',
                'a re-used object is compared with a freshly constructed one at 1e-11 of the term magnitude (identical arithmetic is expected); '
                'the K tensor of an existing SDVPN object can only be replaced through load(model), so that is the history step used',
+               'ownership: an object built from arrays owns its numbers - what the caller later does to the arrays it handed over, to arrays handed out by read-only '
+               'attributes or to other instances does not change it (the same standard as the repaired C12 / C01 aliasing defects).  Objects handed over as objects '
+               '(Box, GammaSurface, Volterra solution) are held by reference by design (pn.gamma.set() is a supported way of changing the surface of an SDVPN object), '
+               'GammaSurface.data is the live table that fit() reads, and the arrays returned by settable SDVPN attributes (x, disregistry, tau, beta) may be edited in '
+               'place to change THAT object: none of these is judged.  disldensity() / pn_arctan_* returning the very x array they were given is observed, not judged',
+               'data handed over as float32 carry single-precision rounding through numpy\'s own rules (tiling, unit conversion): twin comparison 2e-5 of the range, '
+               'round trip 4 eps32; a float32 x grid / disregistry is not generated (energies would be evaluated in single precision)',
+               'lists for x / disregistry are passed to setters and solve() only (the energy methods document numpy arrays)',
                'oracle shares numpy/scipy with the code under test']
 CONFIG = {'quick': {'timeout': 900}, 'thorough': {'timeout': 3600}}
 
@@ -84,6 +103,21 @@ def cpu_limit(seconds):
             signal.setitimer(signal.ITIMER_VIRTUAL, max(left - (time.process_time() - t0), 0.01))
 
 
+MON = {'off': False}
+
+
+@contextlib.contextmanager
+def monitors_off():
+    """The call monitors read the object's own vectors / settings; while the harness has deliberately
+    overwritten arrays the object may (wrongly) share, the ownership clauses judge it instead."""
+    old = MON['off']
+    MON['off'] = True
+    try:
+        yield
+    finally:
+        MON['off'] = old
+
+
 def plane_of(S, xvect=None, a1=None, a2=None):
     bv = S['boxvects'] if S['boxvects'] is not None else np.eye(3)
     return O.Plane(S['a1vect'] if a1 is None else a1, S['a2vect'] if a2 is None else a2, bv, xvect=xvect)
@@ -110,7 +144,7 @@ def install_monitors(rec, am):
     PN = am.defect.SDVPN
 
     def post_pos_to_a12(args, kwargs, result, exc, old):
-        if exc is not None:
+        if exc is not None or MON['off']:
             return
         g = args[0]
         pos = np.asarray(args[1] if len(args) > 1 else kwargs['pos'], float)
@@ -130,7 +164,7 @@ def install_monitors(rec, am):
     monitor.observe(GS, 'pos_to_a12', post_pos_to_a12)
 
     def post_total(args, kwargs, result, exc, old):
-        if exc is not None:
+        if exc is not None or MON['off']:
             return
         pn = args[0]
         x = kwargs.get('x', args[1] if len(args) > 1 else None)
@@ -1304,6 +1338,666 @@ def arctan_case(ctx, am, i):
     rec.count('arctan')
 
 
+# ----------------------------------------------------------------------------
+# who owns the numbers (gamma surfaces): the caller overwrites every array it handed over and every
+# array a read-only attribute handed out, builds further surfaces (from fresh objects and from the
+# SAME buffers), and the first surface is re-judged for ITS data each time
+# ----------------------------------------------------------------------------
+def three(v):
+    return np.array(O.three_index(v), float)
+
+
+def gs_queries(rng, S0, pl):
+    n1, n2 = S0['n1'], S0['n2']
+    cushion = 0.0 if S0['layout'] == 'dup' else 0.5 / n1
+    generic, hard, edge = gen.query_points(rng, 8, n1, n2, cushion)
+    ab = np.vstack([generic, hard[:6], rng.uniform(-1.5, 2.5, (3, 2))])
+    pos = pl.a12_to_pos(ab[:, 0], ab[:, 1])
+    x, y = pl.pos_to_xy(pos)
+    return dict(ab=ab, gen=generic, pos=pos, x=np.array(x), y=np.array(y))
+
+
+def gs_answers(g, Q, with_delta, raw=False):
+    """Everything a caller can ask of a surface at the fixed query set Q (fresh argument arrays per call)."""
+    a, b = Q['ab'][:, 0], Q['ab'][:, 1]
+    ga, gb = Q['gen'][:, 0], Q['gen'][:, 1]
+    out = {'E_gsf:smooth': g.E_gsf(a1=a.copy(), a2=b.copy()), 'E_gsf:nearest': g.E_gsf(a1=ga.copy(), a2=gb.copy(), smooth=False)}
+    if with_delta:
+        out['delta:smooth'] = g.delta(a1=a.copy(), a2=b.copy())
+        out['delta:nearest'] = g.delta(a1=ga.copy(), a2=gb.copy(), smooth=False)
+    out['a12_to_pos'] = g.a12_to_pos(a.copy(), b.copy())
+    out['pos_to_a12'] = g.pos_to_a12(Q['pos'].copy())
+    out['pos_to_xy'] = g.pos_to_xy(Q['pos'].copy())
+    out['xy_to_pos'] = g.xy_to_pos(Q['x'].copy(), Q['y'].copy())
+    out['a12_to_xy'] = g.a12_to_xy(a.copy(), b.copy())
+    out['xy_to_a12'] = g.xy_to_a12(Q['x'].copy(), Q['y'].copy())
+    out['E_gsf:pos'] = g.E_gsf(pos=Q['pos'].copy())
+    out['E_gsf:xy'] = g.E_gsf(x=Q['x'].copy(), y=Q['y'].copy())
+    if raw:
+        return out
+    return {k: np.array(v, float) for k, v in out.items()}
+
+
+def answer_scale(k, R, Rd, L, amax):
+    if k.startswith('E_gsf'):
+        return R
+    if k.startswith('delta'):
+        return Rd
+    return L * amax if k in ('a12_to_pos', 'pos_to_xy', 'xy_to_pos', 'a12_to_xy') else amax
+
+
+def judge_kept_surface(ctx, am, g, S0, pl, Q, ref, key, why, reftol=1e-11, f32=False):
+    """g was built from the numbers S0 (pristine copies the code under test never saw) and answered
+    ``ref`` at the fixed queries Q.  Whatever the caller did since to ITS arrays or to other objects,
+    g must still hold S0, reproduce its energies at the sampled shifts, give the same answers,
+    convert coordinates with S0's vectors and write S0 into its data model."""
+    rec = ctx.rec
+    c_ = why + ', the surface '
+    # data handed over in single precision carry their own rounding (tiling a1 +- 1 and unit conversion are then done in
+    # single precision by numpy's rules): the comparison with a double-precision twin and the round trip are bounded by it
+    ertol = 4 * float(np.finfo(np.float32).eps) if f32 else 1e-12
+    R = float(S0['table'].max() - S0['table'].min())
+    Rd = float(S0['dtable'].max() - S0['dtable'].min()) if S0['with_delta'] else 1.0
+    L = max(np.linalg.norm(pl.A1), np.linalg.norm(pl.A2))
+    kappa = np.linalg.cond(np.array([pl.A1, pl.A2]).T)
+    amax = 1 + np.abs(Q['ab']).max()
+    bv = S0['boxvects'] if S0['boxvects'] is not None else np.eye(3)
+    with monitors_off(), np.errstate(all='ignore'):
+        with ctx.guard(c_ + 'still holds the vectors and data it was given', key):
+            u1, u2 = three(S0['a1vect']), three(S0['a2vect'])
+            rec.close(1e-12 * (1 + np.abs(u1).max()), g.a1vect, u1, c_ + 'still holds the shift vectors it was given', key, which='a1vect')
+            rec.close(1e-12 * (1 + np.abs(u2).max()), g.a2vect, u2, c_ + 'still holds the shift vectors it was given', key, which='a2vect')
+            rec.close(1e-12, g.planenormal, pl.n, c_ + 'still has the plane normal of its shift vectors', key)
+            rec.close(1e-12 * np.abs(bv).max(), g.box.vects, bv, c_ + 'still holds the box it was given', key)
+            rec.close(1e-13, g.data.a1.values, S0['a1'], c_ + 'still holds the fractional coordinates it was given', key, which='a1')
+            rec.close(1e-13, g.data.a2.values, S0['a2'], c_ + 'still holds the fractional coordinates it was given', key, which='a2')
+            rec.close(1e-12 * S0['scale'], g.data.E_gsf.values, S0['E'], c_ + 'still holds the energies it was given', key, rtol=1e-12)
+            rec.check(('delta' in g.data) == S0['with_delta'], c_ + 'still has / has no plane-separation data', key)
+            if S0['with_delta'] and 'delta' in g.data:
+                rec.close(1e-12, g.data.delta.values, S0['delta'], c_ + 'still holds the plane separations it was given', key)
+        with ctx.guard(c_ + 'still reproduces its input at the sampled shifts', key):
+            for smooth in (True, False):
+                got = g.E_gsf(a1=np.array(S0['a1']), a2=np.array(S0['a2']), smooth=smooth)
+                rec.close(1e-8 * R, got, S0['E'], c_ + 'still reproduces its input energies at the sampled shifts', key, smooth=smooth)
+                if S0['with_delta']:
+                    got = g.delta(a1=np.array(S0['a1']), a2=np.array(S0['a2']), smooth=smooth)
+                    rec.close(1e-8 * Rd, got, S0['delta'], c_ + 'still reproduces its input plane separations at the sampled shifts', key, smooth=smooth)
+        now = None
+        with ctx.guard(c_ + 'still answers every query', key):
+            now = gs_answers(g, Q, S0['with_delta'])
+        if now is not None:
+            for k, v in ref.items():
+                sc = answer_scale(k, R, Rd, L, amax)
+                rec.close(reftol * sc * (kappa if 'a12' in k or k.endswith((':pos', ':xy')) else 1.0), now[k], v,
+                          c_ + 'gives the same answers at fixed query points as before / as an untouched twin', key, query=k)
+            a, b = Q['ab'][:, 0], Q['ab'][:, 1]
+            rec.close(1e-12 * L * amax, now['a12_to_pos'], Q['pos'], c_ + 'still converts with the shift vectors it was given (a12_to_pos)', key)
+            rec.close(1e-9 * kappa * amax, now['pos_to_a12'], np.array([a, b]), c_ + 'still converts with the shift vectors it was given (pos_to_a12)', key)
+            rec.close(1e-11 * L * amax, now['pos_to_xy'], np.array([Q['x'], Q['y']]), c_ + 'still converts with the shift vectors it was given (pos_to_xy)', key)
+            rec.close(1e-10 * R * kappa, now['E_gsf:pos'], now['E_gsf:smooth'], c_ + 'still takes the three coordinate forms interchangeably', key)
+            rec.close(1e-10 * R * kappa, now['E_gsf:xy'].reshape(-1), now['E_gsf:smooth'], c_ + 'still takes the three coordinate forms interchangeably', key)
+            with ctx.guard(c_ + 'is still periodic', key):
+                got = g.E_gsf(a1=a + 2, a2=b - 3)
+                rec.close(1e-10 * R, got, now['E_gsf:smooth'], c_ + 'is still periodic', key)
+        with ctx.guard(c_ + 'still writes its own data into the data model', key):
+            g2 = am.defect.GammaSurface(model=g.model())
+            rec.close(1e-12 * S0['scale'], g2.data.E_gsf.values, S0['E'], c_ + 'still survives the data-model round trip with the energies it was given', key, rtol=ertol)
+            rec.close(1e-13, g2.data.a1.values, S0['a1'], c_ + 'still survives the data-model round trip with the coordinates it was given', key)
+            rec.close(1e-12 * L, O.crystal_to_cart(g2.a1vect, g2.box.vects), pl.A1, c_ + 'still survives the data-model round trip with the vectors it was given', key)
+            rec.close(1e-12 * L, O.crystal_to_cart(g2.a2vect, g2.box.vects), pl.A2, c_ + 'still survives the data-model round trip with the vectors it was given', key)
+            if S0['with_delta']:
+                rec.close(1e-12, g2.data.delta.values, S0['delta'], c_ + 'still survives the data-model round trip with the plane separations it was given', key, rtol=ertol)
+    rec.count('own:gs:judged')
+
+
+def number_lists(node, out=None):
+    """Every innermost list of numbers inside a data model (DataModelDict / dict / list nest)."""
+    out = [] if out is None else out
+    if isinstance(node, dict):
+        for v in node.values():
+            number_lists(v, out)
+    elif isinstance(node, list):
+        if node and all(isinstance(t, (int, float)) and not isinstance(t, bool) for t in node):
+            out.append(node)
+        else:
+            for v in node:
+                number_lists(v, out)
+    return out
+
+
+def plain_surface(am, S0):
+    """A surface built from private copies of S0 that nobody touches afterwards (the untouched twin)."""
+    box = am.Box(vects=np.array(S0['boxvects'])) if S0['boxvects'] is not None else None
+    cp = lambda v: None if v is None else np.array(v, float)
+    return am.defect.GammaSurface(a1vect=cp(S0['a1vect']), a2vect=cp(S0['a2vect']), a1=cp(S0['a1']), a2=cp(S0['a2']), E_gsf=cp(S0['E']), box=box, delta=cp(S0['delta']))
+
+
+def promoted_surface(S, form):
+    S0 = dict(S)
+    for k in ('a1', 'a2', 'E', 'delta', 'a1vect', 'a2vect'):
+        S0[k] = None if S[k] is None else gen.promote(S[k], form)
+    return S0
+
+
+def gs_hand_over(rng, S0, form, index=None):
+    """(args, writers): the objects handed to the code under test and, per argument, the function that
+    overwrites in place what the caller keeps of it (None: immutable)."""
+    import pandas as pd
+    args, writers = {}, {}
+    for slot, k in enumerate(('a1', 'a2', 'E', 'delta')):
+        if S0[k] is None:
+            args[k] = None
+            continue
+        if form == 'series':
+            buf, w = gen.hand_over(S0[k], 'array')
+            args[k] = pd.Series(buf, index=index, copy=False)
+        else:
+            args[k], w = gen.hand_over(S0[k], form, slot, 4)
+        writers[k] = w
+    for slot, k in enumerate(('a1vect', 'a2vect')):
+        args[k], writers[k] = gen.hand_over(S0[k], 'array' if form == 'series' else form, slot, 2)
+    return args, writers
+
+
+def gs_construct(am, path, args, box, old=None):
+    GS = am.defect.GammaSurface
+    if path == 'init':
+        return GS(a1vect=args['a1vect'], a2vect=args['a2vect'], a1=args['a1'], a2=args['a2'], E_gsf=args['E'], box=box, delta=args['delta'])
+    if path == 'empty-set':
+        g = GS()
+    else:                       # an object that held (and answered queries on) other data
+        g = build_gamma(am, old)
+        warm_surface(g, old)
+    g.set(args['a1vect'], args['a2vect'], args['a1'], args['a2'], args['E'], box=box, delta=args['delta'])
+    return g
+
+
+def gs_alias_case(ctx, am, i):
+    rec, rng = ctx.rec, ctx.rng
+    form, path, kind, isurf, first = gen.gs_alias_plan(i)
+    S = gen.gen_surface(rng, isurf)
+    if path == 'model':
+        form = 'model-lists'
+    S0 = promoted_surface(S, form)
+    n1, n2 = S0['n1'], S0['n2']
+    sig = ('gs-ownership', form, path, kind, S['shift'], f'{n1}x{n2}', S['layout'], 'delta' if S['with_delta'] else 'nodelta')
+    rec.case(sig, nontrivial=True, fp=fingerprint(S0['E'], S0['a1vect'], S0['a2vect'], form, path))
+    rec.count('own:gs:form:' + form)
+    rec.count('own:gs:path:' + path)
+    rec.count('own:gs:scramble:' + kind)
+    g = twin = None
+    args, writers = {}, {}
+    with ctx.guard('a gamma surface can be built from every array-like form of its data', f'own:gs:build:{form}:{path}'):
+        if path == 'model':
+            mdl = plain_surface(am, S0).model()
+            text = mdl.json()
+            g = am.defect.GammaSurface(model=mdl)
+            twin = am.defect.GammaSurface(model=text)
+            S0 = dict(S0, E=twin.data.E_gsf.values.copy(), delta=twin.data.delta.values.copy() if S0['with_delta'] else None)
+            sfm = mdl['stacking-fault-map']
+            sfr = sfm['stacking-fault-relation']
+            lists = {'a1vect': sfm['shift-vector-1'], 'a2vect': sfm['shift-vector-2'], 'a1': sfr['shift-vector-1-fraction'],
+                     'a2': sfr['shift-vector-2-fraction'], 'E': sfr['energy']['value']}
+            if S0['with_delta']:
+                lists['delta'] = sfr['plane-separation']['value']
+            for k, lst in lists.items():
+                rec.check(isinstance(lst, list), 'harness: the data model holds its numbers in lists', 'harness:gs:model-lists')
+                writers[k] = (lambda new, lst=lst: lst.__setitem__(slice(None), [float(t) for t in np.ravel(new)]))
+            current = {k: np.array(lst, float) for k, lst in lists.items()}
+        else:
+            index = rng.permutation(len(S0['E'])) if (form == 'series' and i % 2) else None
+            args, writers = gs_hand_over(rng, S0, form, index)
+            box = am.Box(vects=np.array(S0['boxvects'])) if S0['boxvects'] is not None else None
+            old = gen.gen_surface(rng, isurf + 3) if path == 'set-again' else None
+            g = gs_construct(am, path, args, box, old)
+            twin = plain_surface(am, S0)
+            current = {k: (None if S0[k] is None else np.array(S0[k], float)) for k in gen.GS_ALIAS_ARGS}
+    if g is None or twin is None:
+        return
+    pl = plane_of(S0)
+    Q = gs_queries(rng, S0, pl)
+    ref = None
+    with ctx.guard('the untouched twin answers every query', 'own:gs:twin:exception'):
+        ref = gs_answers(twin, Q, S0['with_delta'])
+    if ref is None:
+        return
+    # whatever form the numbers arrived in, the surface is the one an untouched twin built from plain arrays is
+    f32 = form == 'float32'
+    twintol = 2e-5 if f32 else 1e-10         # float32 coordinates: 2 pi n x single-precision rounding of the tiled node positions
+    judge_kept_surface(ctx, am, g, S0, pl, Q, ref, f'own:gs:form-equivalence:{form}', f'built from {form} input through {path}', reftol=twintol, f32=f32)
+    with ctx.guard('the surface answers every query', 'own:gs:reference:exception'):
+        with monitors_off():
+            ref = gs_answers(g, Q, S0['with_delta'])       # from here on: the surface's own first answers
+
+    # -- the caller overwrites, one at a time, every array it handed over ---------------------------
+    names = [k for k in gen.GS_ALIAS_ARGS if writers.get(k) is not None]
+    if names:
+        names = names[first % len(names):] + names[:first % len(names)]
+    else:
+        rec.count('own:gs:immutable-form')
+    for k in names:
+        writers[k](gen.scrambled(rng, kind, current[k]))
+        judge_kept_surface(ctx, am, g, S0, pl, Q, ref, f'alias:gs:arg:{k}', f'after the caller overwrites in place the {k} array it handed over', f32=f32)
+        writers[k](current[k])
+        rec.count('own:gs:arg:' + k)
+        rec.count('own:gs:arg-overwritten')
+
+    # -- the caller overwrites the arrays the read-only attributes handed out ------------------------
+    for name in gen.GS_RESULT_ATTRS:
+        r = getattr(g, name)
+        keep = np.array(r, float)
+        try:
+            r[...] = gen.scrambled(rng, kind, keep)
+        except (ValueError, TypeError):
+            rec.count('own:gs:result-protected:' + name)
+            rec.count('own:gs:result-overwritten')
+            continue
+        judge_kept_surface(ctx, am, g, S0, pl, Q, ref, f'alias:gs:result:{name}', f'after the caller overwrites the array that .{name} handed out', f32=f32)
+        r[...] = keep
+        rec.count('own:gs:result-overwritten')
+
+    # -- returned arrays: not overwritten by later calls, not internal buffers; argument arrays untouched ---
+    with ctx.guard('queries and conversions return arrays of their own', 'alias:gs:result:methods'):
+        with monitors_off():
+            raw = gs_answers(g, Q, S0['with_delta'], raw=True)
+            flat = {}
+            for k, v in raw.items():
+                for j, part in enumerate(v if isinstance(v, tuple) else (v,)):
+                    flat[f'{k}[{j}]'] = part
+            copies = {k: np.array(v, float) for k, v in flat.items()}
+            Q2 = gs_queries(rng, S0, pl)
+            gs_answers(g, Q2, S0['with_delta'])
+            for k, v in flat.items():
+                rec.close(0, v, copies[k], 'the result of an earlier query / conversion is not overwritten by later calls', f'alias:gs:result:{k.split(":")[0].split("[")[0]}', query=k)
+            for k, v in flat.items():
+                if isinstance(v, np.ndarray) and v.flags.writeable and v.ndim:
+                    v[...] = 1e3
+            again = gs_answers(g, Q, S0['with_delta'])
+            R = float(S0['table'].max() - S0['table'].min())
+            for k, v in again.items():
+                rec.close(1e-10 * (1 + np.abs(ref[k]).max()), v, ref[k], 'overwriting a returned array does not change later answers', f'alias:gs:result:{k.split(":")[0]}', query=k)
+            rec.count('own:gs:returned-arrays')
+    with ctx.guard('queries and conversions leave their argument arrays untouched', 'args:gs:query-arrays-modified'):
+        with monitors_off():
+            a, b = Q['ab'][:, 0].copy(), Q['ab'][:, 1].copy()
+            pos, x, y = Q['pos'].copy(), Q['x'].copy(), Q['y'].copy()
+            calls = [('E_gsf', lambda: g.E_gsf(a1=a, a2=b)), ('E_gsf', lambda: g.E_gsf(a1=a, a2=b, smooth=False)), ('E_gsf', lambda: g.E_gsf(pos=pos)),
+                     ('E_gsf', lambda: g.E_gsf(pos=pos, smooth=False)), ('E_gsf', lambda: g.E_gsf(x=x, y=y)), ('conv', lambda: g.a12_to_pos(a, b)), ('conv', lambda: g.pos_to_a12(pos)),
+                     ('conv', lambda: g.pos_to_xy(pos)), ('conv', lambda: g.xy_to_pos(x, y)), ('conv', lambda: g.a12_to_xy(a, b)), ('conv', lambda: g.xy_to_a12(x, y))]
+            if S0['with_delta']:
+                calls += [('delta', lambda: g.delta(a1=a, a2=b)), ('delta', lambda: g.delta(a1=a, a2=b, smooth=False)), ('delta', lambda: g.delta(pos=pos)), ('delta', lambda: g.delta(x=x, y=y))]
+            for what, f in calls:
+                f()
+                same = (np.array_equal(a, Q['ab'][:, 0]) and np.array_equal(b, Q['ab'][:, 1]) and np.array_equal(pos, Q['pos'])
+                        and np.array_equal(x, Q['x']) and np.array_equal(y, Q['y']))
+                rec.check(same, f'{what} leaves the coordinate arrays it is given untouched', f'args:gs:query-arrays-modified:{what}')
+                if not same:
+                    a, b, pos, x, y = Q['ab'][:, 0].copy(), Q['ab'][:, 1].copy(), Q['pos'].copy(), Q['x'].copy(), Q['y'].copy()
+            rec.count('own:gs:query-arrays', len(calls))
+
+    # -- a second surface from fresh objects, then a third from the SAME buffers ----------------------
+    Sb = gen.gen_surface(rng, isurf + 11, override=dict(grid=(n1, n2), layout=S['layout'], order=S['order'], with_delta=S['with_delta']))
+    bform = 'array' if form == 'model-lists' else form
+    S0b = promoted_surface(Sb, bform)
+    plb = plane_of(S0b)
+    Qb = gs_queries(rng, S0b, plb)
+    gB = refB = None
+    with ctx.guard('a second gamma surface can be built next to the first', 'own:gs:second:build'):
+        argsB, _w = gs_hand_over(rng, S0b, 'array' if bform == 'series' else bform)
+        boxB = am.Box(vects=np.array(S0b['boxvects'])) if S0b['boxvects'] is not None else None
+        gB = gs_construct(am, path if path in ('init', 'empty-set') else 'init', argsB, boxB)
+        refB = gs_answers(plain_surface(am, S0b), Qb, S0b['with_delta'])
+    if gB is not None and refB is not None:
+        with ctx.guard('the second surface answers queries', 'own:gs:second:warm'):
+            with monitors_off():
+                gs_answers(gB, Qb, S0b['with_delta'])
+        judge_kept_surface(ctx, am, g, S0, pl, Q, ref, 'leak:gs:second-instance', 'after a second surface was built and queried in the same process (first surface re-judged)', f32=f32)
+        judge_kept_surface(ctx, am, gB, S0b, plb, Qb, refB, 'leak:gs:second-instance', 'built after another surface was built and queried (second surface judged)', reftol=twintol, f32=f32)
+        rec.count('own:gs:second-instance')
+    data_keys = [k for k in ('a1', 'a2', 'E', 'delta') if S0[k] is not None]
+    if path != 'model' and all(writers.get(k) is not None for k in data_keys):
+        gC = None
+        with ctx.guard('the buffers of the first surface can be reused for another one', 'own:gs:reuse:build'):
+            for k in data_keys:
+                writers[k](S0b[k])
+            argsC = dict(args)
+            va, _ = gen.hand_over(S0b['a1vect'], 'array')
+            vb, _ = gen.hand_over(S0b['a2vect'], 'array')
+            argsC.update(a1vect=va, a2vect=vb)
+            gC = gs_construct(am, path if path in ('init', 'empty-set') else 'init', argsC, am.Box(vects=np.array(S0b['boxvects'])) if S0b['boxvects'] is not None else None)
+        if gC is not None:
+            why = 'after the caller reused its data buffers to build another surface'
+            judge_kept_surface(ctx, am, g, S0, pl, Q, ref, 'alias:gs:reuse-data-buffers', why + ' (first surface re-judged)', f32=f32)
+            judge_kept_surface(ctx, am, gC, S0b, plb, Qb, refB, 'alias:gs:reuse-data-buffers', why + ' (the new surface judged)', reftol=twintol, f32=f32)
+            for k in data_keys:
+                writers[k](np.zeros_like(np.array(S0[k], float)))
+            judge_kept_surface(ctx, am, g, S0, pl, Q, ref, 'alias:gs:reuse-data-buffers', why + ' and then cleared them (first surface re-judged)', f32=f32)
+            judge_kept_surface(ctx, am, gC, S0b, plb, Qb, refB, 'alias:gs:reuse-data-buffers', why + ' and then cleared them (the new surface judged)', reftol=twintol, f32=f32)
+            rec.count('own:gs:buffers-reused')
+
+    # -- integer / float32 / tuple coordinates -------------------------------------------------------
+    query_forms(ctx, g, twin, S0, Q, i)
+
+
+def query_forms(ctx, g, twin, S0, Q, i):
+    """Fractional coordinates given as Python ints, int lists / arrays (lattice points: the sampled
+    (0,0) energy displaced by whole periods), float32 arrays and tuples."""
+    rec, rng = ctx.rec, ctx.rng
+    R = float(S0['table'].max() - S0['table'].min())
+    funcs = [('E_gsf', g.E_gsf, g.E_gsf, R, S0['E'])]
+    if S0['with_delta']:
+        funcs.append(('delta', g.delta, g.delta, float(S0['dtable'].max() - S0['dtable'].min()), S0['delta']))
+    at0 = int(np.flatnonzero((S0['a1'] == 0.0) & (S0['a2'] == 0.0))[0])
+    P = rng.integers(-3, 4, (5, 2))
+    P[0] = (1, 0)
+    P[1] = (0, -1)
+    P[2] = (2, 3)
+    gpts = Q['gen']
+    g32 = gpts.astype(np.float32)
+    eps32 = float(np.finfo(np.float32).eps)
+    with monitors_off():
+        for name, f, ft, rng_, vals in funcs:
+            e00 = vals[at0]
+            c_ = f'{name} accepts fractional coordinates given as '
+            for smooth in (True, False):
+                kw = {} if smooth else {'smooth': False}
+                rec.count('own:gs:queryform:int-attempted', 3)
+                with ctx.guard(c_ + 'Python integers (lattice points)', 'forms:gs:query:int-coordinates'):
+                    for p, q in P[:3]:
+                        v = f(a1=int(p), a2=int(q), **kw)
+                        rec.close(1e-8 * rng_, np.reshape(v, ()), e00, c_ + 'Python integers: the sampled (0,0) value at every lattice point', 'forms:gs:query:int-coordinates', p=int(p), q=int(q), smooth=smooth)
+                    rec.count('own:gs:queryform:int-scalar')
+                with ctx.guard(c_ + 'lists of integers (lattice points)', 'forms:gs:query:int-coordinates'):
+                    v = f(a1=[int(t) for t in P[:, 0]], a2=[int(t) for t in P[:, 1]], **kw)
+                    rec.close(1e-8 * rng_, v, np.full(len(P), e00), c_ + 'integer lists: the sampled (0,0) value at every lattice point', 'forms:gs:query:int-coordinates', smooth=smooth)
+                    rec.count('own:gs:queryform:int-list')
+                with ctx.guard(c_ + 'integer arrays (lattice points)', 'forms:gs:query:int-coordinates'):
+                    pa, pb = P[:, 0].copy(), P[:, 1].copy()
+                    v = f(a1=pa, a2=pb, **kw)
+                    rec.close(1e-8 * rng_, v, np.full(len(P), e00), c_ + 'integer arrays: the sampled (0,0) value at every lattice point', 'forms:gs:query:int-coordinates', smooth=smooth)
+                    rec.check(np.array_equal(pa, P[:, 0]) and np.array_equal(pb, P[:, 1]), c_ + 'integer arrays without modifying them', 'args:gs:query-arrays-modified:' + name)
+                    rec.count('own:gs:queryform:int-array')
+                with ctx.guard(c_ + 'the integer 0', 'forms:gs:query:int-in-cell'):
+                    v = f(a1=0, a2=0, **kw)
+                    rec.close(1e-8 * rng_, np.reshape(v, ()), e00, c_ + 'the integer 0: the sampled (0,0) value', 'forms:gs:query:int-in-cell', smooth=smooth)
+                    rec.count('own:gs:queryform:int-in-cell')
+                with ctx.guard(c_ + 'tuples', 'forms:gs:query:tuple'):
+                    v = f(a1=tuple(float(t) for t in gpts[:, 0]), a2=tuple(float(t) for t in gpts[:, 1]), **kw)
+                    rec.close(1e-10 * rng_, v, ft(a1=gpts[:, 0].copy(), a2=gpts[:, 1].copy(), **kw), c_ + 'tuples: the values of the same numbers given as arrays', 'forms:gs:query:tuple', smooth=smooth)
+                    rec.count('own:gs:queryform:tuple')
+            with ctx.guard(c_ + 'float32 arrays', 'forms:gs:query:float32'):
+                v = f(a1=g32[:, 0].copy(), a2=g32[:, 1].copy())
+                exp = ft(a1=g32[:, 0].astype(float), a2=g32[:, 1].astype(float))
+                # the coordinates themselves carry float32 rounding: bound = slope bound of periodic data on the grid x that rounding
+                tol = 4 * eps32 * (2 + np.abs(g32).max()) * rng_ * 2 * np.pi * max(S0['n1'], S0['n2'])
+                rec.close(tol, v, exp, c_ + 'float32 arrays: the values of the same numbers in double precision, within float32 rounding of the coordinates', 'forms:gs:query:float32')
+                rec.count('own:gs:queryform:float32')
+        with ctx.guard('a12_to_pos / a12_to_xy accept integer coordinates', 'forms:gs:conv:int'):
+            pl = plane_of(S0)
+            L = max(np.linalg.norm(pl.A1), np.linalg.norm(pl.A2))
+            exp = pl.a12_to_pos(P[:, 0].astype(float), P[:, 1].astype(float))
+            rec.close(1e-12 * L * 5, g.a12_to_pos([int(t) for t in P[:, 0]], [int(t) for t in P[:, 1]]), exp, 'a12_to_pos of integer coordinates', 'forms:gs:conv:int')
+            rec.close(1e-12 * L * 5, np.reshape(g.a12_to_pos(int(P[2, 0]), int(P[2, 1])), -1), exp[2], 'a12_to_pos of integer coordinates', 'forms:gs:conv:int')
+            xe, ye = pl.pos_to_xy(exp)
+            xx, yy = g.a12_to_xy(P[:, 0].copy(), P[:, 1].copy())
+            rec.close(1e-11 * L * 5, np.array([xx, yy]), np.array([xe, ye]), 'a12_to_xy of integer coordinates', 'forms:gs:conv:int')
+            rec.count('own:gs:queryform:int-conv')
+
+
+# ----------------------------------------------------------------------------
+# who owns the numbers (Peierls-Nabarro objects)
+# ----------------------------------------------------------------------------
+PN_NAMES = {'misfit': 'misfit_energy', 'elastic': 'elastic_energy', 'stress': 'stress_energy', 'surface': 'surface_energy', 'nonlocal': 'nonlocal_energy'}
+
+
+def pn_answers(pn):
+    """The six terms and the total from the stored x / disregistry (no arguments passed)."""
+    out = {name: float(getattr(pn, meth)()) for name, meth in PN_NAMES.items()}
+    out['longrange'] = float(pn.longrange_energy())
+    out['total'] = float(pn.total_energy())
+    return out
+
+
+def judge_kept_pn(ctx, pn, st, exp, ref, key, why):
+    """pn was given the settings / grid / profile in st (pristine copies).  Whatever the caller did since
+    to ITS arrays or to other objects, pn must still hold them and its stored-state energies must still
+    be the oracle's for those settings (and the numbers it gave before)."""
+    rec = ctx.rec
+    c_ = why + ', the SDVPN object '
+    x, d = st['x'], st['d']
+    N, dx = len(x), abs(x[1] - x[0])
+    rel = lambda v: 1e-12 * (np.abs(np.asarray(v, float)).max() + 1e-300)
+    with monitors_off(), np.errstate(all='ignore'), warnings.catch_warnings():
+        warnings.simplefilter('ignore')
+        with ctx.guard(c_ + 'still holds the settings, grid and profile it was given', key):
+            rec.close(rel(st['tau']), pn.tau, st['tau'], c_ + 'still holds the stress it was given', key, which='tau')
+            rec.close(rel(st['beta']), pn.beta, st['beta'], c_ + 'still holds the beta coefficients it was given', key, which='beta')
+            rec.close(rel(st['alpha']), np.array(pn.alpha, float), np.array(st['alpha'], float), c_ + 'still holds the alpha coefficients it was given', key, which='alpha')
+            rec.close(rel(x), pn.x, x, c_ + 'still holds the x grid it was given', key, which='x')
+            rec.close(rel(d), pn.disregistry, d, c_ + 'still holds the disregistry it was given / solved', key, which='disregistry')
+            rec.close(1e-9 * np.abs(st['K']).max(), pn.K_tensor, st['K'], c_ + 'still holds the K tensor of its Volterra solution', key, which='K_tensor')
+            rec.close(1e-9 * np.abs(st['b']).max(), pn.burgers, st['b'], c_ + 'still holds the Burgers vector of its Volterra solution', key, which='burgers')
+            rec.close(1e-9, pn.transform, st['T'], c_ + 'still holds the frame of its Volterra solution', key, which='transform')
+        with ctx.guard(c_ + 'still evaluates its energies', key):
+            now = pn_answers(pn)
+            tot, mag_t = 0.0, 0.0
+            for name in TERMS:
+                e, mag = exp[name]
+                tol = 1e-9 * mag + 1e-300
+                if name == 'misfit':
+                    tol = 1e-9 * st['Rg'] * N * dx
+                    mag = st['Rg'] * N * dx
+                tot += e
+                mag_t += mag
+                rec.close(tol, now[name], e, c_ + f'still gives the {name} energy of the documented formula for the settings it was given', key, term=name)
+                if ref is not None:
+                    rec.close(1e-11 * mag + 1e-300, now[name], ref[name], c_ + f'still gives the {name} energy it gave before', key, term=name)
+            rec.close(1e-8 * mag_t, now['total'], tot, c_ + 'still gives the total energy of the documented terms for the settings it was given', key)
+            if ref is not None:
+                rec.close(1e-11 * mag_t, now['total'], ref['total'], c_ + 'still gives the total energy it gave before', key)
+    rec.count('own:pn:judged')
+    return None
+
+
+def pn_alias_case(ctx, am, i):
+    rec, rng = ctx.rec, ctx.rng
+    form, path, kind, first = gen.pn_alias_plan(i)
+    cls = gen.pn_classes(5 * i + 2)
+    cls.update(N=7 if path == 'solve-kw' else [9, 12, 16, 21][(i // 4) % 4], tau=['sym', 'asym'][i % 2], beta=['diag', 'sym', 'asym'][i % 3],
+               alpha=['two', 'three', 'one'][(i // 2) % 3], profile=['arctan', 'smooth', 'rough', 'offset'][(i // 3) % 4], cutoff='custom' if i % 2 else 'default',
+               flags=dict(fullstress=bool(i & 1), cdiffstress=False, cdiffelastic=bool(i & 2), cdiffsurface=bool(i & 4)))
+    P = gen.gen_pn(rng, i, cls)
+    if path == 'solve-kw':      # keep the minimisation bounded below
+        P['alpha_value'] = [abs(t) for t in P['alpha_value']]
+        P['beta_value'] = np.abs(P['beta_value'])
+    fkey = ''.join(str(int(P['flags'][k])) for k in ('fullstress', 'cdiffstress', 'cdiffelastic', 'cdiffsurface'))
+    sig = ('pn-ownership', form, path, kind, P['cell'], P['K'], P['profile'], P['N'], fkey)
+    SD = am.defect.SDVPN
+    n1, n2 = gen.GRIDS[i % len(gen.GRIDS)]
+    table = gen.energy_table(rng, n1, n2, 'smooth', 10 ** rng.uniform(-2.5, -1))
+    vol = info = None
+    with ctx.guard('an SDVPN object can be built for a slip system lying in the gamma-surface plane', f'own:pn:build:{P["cell"]}'):
+        _g, vol, info = build_parts(ctx, am, P, i, table=table, grid=(n1, n2))
+    if vol is None:
+        rec.case(sig, nontrivial=False)
+        return
+    # the gamma surface is built from arrays the caller keeps
+    kk, ll = np.meshgrid(np.arange(n1), np.arange(n2), indexing='ij')
+    gbuf = dict(a1=(kk / n1).ravel().copy(), a2=(ll / n2).ravel().copy(), E=table.ravel().copy())
+    gkeep = {k: v.copy() for k, v in gbuf.items()}
+    box = am.Box(vects=P['boxvects']) if P['boxvects'] is not None else None
+    gs = am.defect.GammaSurface(a1vect=P['a1vect'], a2vect=P['a2vect'], a1=gbuf['a1'], a2=gbuf['a2'], E_gsf=gbuf['E'], box=box)
+    bn = float(np.linalg.norm(info['b']))
+    x0 = gen.gen_grid(rng, P['N'], bn, P['x0'])
+    d0, _gam = make_profile(rng, P, None, info, x0)
+    sform = 'float32' if form == 'float32' else 'array'
+    tau0, beta0 = gen.promote(P['tau_value'], sform), gen.promote(P['beta_value'], sform)
+    alpha0 = [float(t) for t in P['alpha_value']]
+    cut = 1000.0 if P['cutoff_value'] is None else P['cutoff_value']
+    rec.case(sig, nontrivial=True, fp=fingerprint(x0, d0, P['C'], tau0, beta0, form, path))
+    rec.count('own:pn:form:' + form)
+    rec.count('own:pn:path:' + path)
+    rec.count('own:pn:scramble:' + kind)
+    xform = 'array' if form == 'float32' else form            # a float32 grid / profile carries its own rounding: not judged
+    bufs, writers = {}, {}
+    bufs['tau'], writers['tau'] = gen.hand_over(tau0, form, 0, 2)
+    bufs['beta'], writers['beta'] = gen.hand_over(beta0, form, 1, 2)
+    bufs['x'], writers['x'] = gen.hand_over(x0, xform, 0, 2)
+    bufs['disregistry'], writers['disregistry'] = gen.hand_over(d0, xform, 1, 2)
+    if form == 'float32':
+        bufs['alpha'], writers['alpha'] = tuple(alpha0), None
+    else:
+        bufs['alpha'] = list(alpha0)
+        writers['alpha'] = lambda new: bufs['alpha'].__setitem__(slice(None), [float(t) for t in new])
+    current = dict(tau=tau0, beta=beta0, alpha=np.array(alpha0), x=x0, disregistry=d0)
+    flags = dict(P['flags'])
+    settings = dict(tau=bufs['tau'], alpha=bufs['alpha'], beta=bufs['beta'], cutofflongrange=cut, **flags)
+    pn = None
+    with ctx.guard(f'an SDVPN object takes its settings through {path}', f'own:pn:hand-over:{path}:{form}'):
+        if path == 'init':
+            pn = SD(volterra=vol, gamma=gs, **settings)
+            pn.x = bufs['x']
+            pn.disregistry = bufs['disregistry']
+        elif path == 'setter':
+            pn = SD(volterra=vol, gamma=gs)
+            for k_, v_ in settings.items():
+                setattr(pn, k_, v_)
+            pn.x = bufs['x']
+            pn.disregistry = bufs['disregistry']
+        elif path == 'solve-kw':
+            pn = SD(volterra=vol, gamma=gs)
+            try:
+                with cpu_limit(SOLVE_STEP_CPU):
+                    pn.solve(x=bufs['x'], disregistry=bufs['disregistry'], min_method='Powell', min_options=dict(maxiter=1), **settings)
+            except CpuLimit:
+                rec.count('watchdog:own:pn:solve-kw:cpu-limit')
+                return
+            rec.close(0, np.array(bufs['x'], float), x0, 'solve(x=, disregistry=) leaves the arrays it is given untouched', 'args:pn:solve-modifies-callers-arrays', which='x')
+            rec.close(0, np.array(bufs['disregistry'], float), d0, 'solve(x=, disregistry=) leaves the arrays it is given untouched', 'args:pn:solve-modifies-callers-arrays', which='disregistry')
+            rec.close(0, np.array(bufs['tau'], float), tau0, 'solve(tau=, beta=) leaves the arrays it is given untouched', 'args:pn:solve-modifies-callers-arrays', which='tau')
+            rec.count('own:pn:solved')
+        else:                   # through a data model written by a donor object
+            donor = SD(volterra=vol, gamma=gs, **settings)
+            donor.x = bufs['x']
+            donor.disregistry = bufs['disregistry']
+            mdl = donor.model()
+            pn = SD(model=mdl, gamma=gs)
+            lists = number_lists(mdl)
+            rec.check(len(lists) >= 5, 'harness: the data model holds its numbers in lists', 'harness:pn:model-lists', n=len(lists))
+            keep = [list(l) for l in lists]
+
+            def write_model(new):
+                for l, k0 in zip(lists, keep):
+                    l[:] = k0 if new is None else [t * 3.0 + 1.0 for t in k0]
+            writers = {'model-lists': write_model}
+            current = {'model-lists': None}
+    if pn is None:
+        return
+    pn._vf_T = info['T']
+    d_now = np.array(pn.disregistry, float) if path == 'solve-kw' else d0
+    st = dict(x=x0, d=d_now, gam=None, tau=tau0, alpha=alpha_tuple(alpha0), alpha_in=alpha0, beta=beta0, cutoff=cut, flags=flags, K=info['K'], b=info['b'],
+              T=info['T'], plane=info['plane'], vol=vol, Rg=float(table.max() - table.min()), gs_fresh=build_gamma_for(am, P, n1, n2, table))
+    exp = oracle_terms_state(st, state_gammas(st))
+    judge_kept_pn(ctx, pn, st, exp, None, f'own:pn:built:{path}', f'given its settings, grid and profile as {form} through {path}')
+    ref = None
+    with ctx.guard('the stored-state energies evaluate', 'own:pn:reference:exception'):
+        with monitors_off():
+            ref = pn_answers(pn)
+    if ref is None:
+        return
+
+    # -- the caller overwrites, one at a time, every array it handed over -------------------------------
+    names = [k for k in (gen.PN_ALIAS_ARGS if path != 'model' else ['model-lists']) if writers.get(k) is not None]
+    names = names[first % len(names):] + names[:first % len(names)] if names else []
+    for k in names:
+        if k == 'model-lists':
+            writers[k](True)
+        else:
+            writers[k](gen.scrambled(rng, kind, current[k]))
+        judge_kept_pn(ctx, pn, st, exp, ref, f'alias:pn:arg:{k}', f'after the caller overwrites in place the {k} it handed over')
+        writers[k](current[k])
+        rec.count('own:pn:arg:' + k)
+        rec.count('own:pn:arg-overwritten')
+    # the arrays the gamma surface was built from
+    for k, v in gbuf.items():
+        v[...] = gen.scrambled(rng, kind, gkeep[k])
+    judge_kept_pn(ctx, pn, st, exp, ref, 'alias:pn:arg:gamma-data', 'after the caller overwrites in place the arrays its gamma surface was built from')
+    for k, v in gbuf.items():
+        v[...] = gkeep[k]
+    rec.count('own:pn:arg:gamma-data')
+
+    # -- the caller overwrites the arrays the read-only attributes handed out -----------------------------
+    for name in gen.PN_RESULT_ATTRS:
+        r = getattr(pn, name)
+        keep = np.array(r, float)
+        try:
+            r[...] = gen.scrambled(rng, kind, keep)
+        except (ValueError, TypeError):
+            rec.count('own:pn:result-protected:' + name)
+            rec.count('own:pn:result-overwritten')
+            continue
+        judge_kept_pn(ctx, pn, st, exp, ref, f'alias:pn:result:{name}', f'after the caller overwrites the array that .{name} handed out')
+        r[...] = keep
+        rec.count('own:pn:result-overwritten')
+    with ctx.guard('disldensity returns arrays of its own', 'alias:pn:result:disldensity'):
+        for cd in (False, True):
+            xs, rho = pn.disldensity(x0.copy(), d_now.copy(), cdiff=cd)
+            keep = np.array(rho)
+            pn.disldensity(x0 * 2.0, d_now * 3.0 + 1.0, cdiff=cd)
+            rec.close(0, rho, keep, 'the density returned by an earlier call is not overwritten by later calls', 'alias:pn:result:disldensity')
+            rho[...] = 0.0
+            xs2, rho2 = pn.disldensity(x0.copy(), d_now.copy(), cdiff=cd)
+            rec.close(0, rho2, keep, 'overwriting a returned density does not change later answers', 'alias:pn:result:disldensity')
+        xs, rho = pn.disldensity()
+        rec.count('observed:pn:disldensity()-hands-out-stored-x', int(np.shares_memory(xs, pn.x)))
+        rec.count('own:pn:returned-arrays')
+
+    # -- a second object with other settings on the same Volterra solution and gamma surface; then a default one ---
+    N2 = [8, 11, 14][i % 3]
+    xB = gen.gen_grid(rng, N2, bn, 'centred')
+    dB, _ = make_profile(rng, dict(P, profile=['rough', 'arctan', 'smooth'][i % 3]), None, info, xB)
+    flB = {k_: not v_ for k_, v_ in flags.items()}
+    flB['cdiffstress'] = False
+    alB = new_settings(rng, 'alpha', k=1 + (i % 3))
+    stB = dict(st, x=xB, d=dB, gam=None, tau=new_settings(rng, 'tau'), alpha_in=alB, alpha=alpha_tuple(alB), beta=new_settings(rng, 'beta'),
+               cutoff=new_settings(rng, 'cutoff'), flags=flB)
+    with ctx.guard('a second SDVPN object can be built next to the first', 'own:pn:second:build'):
+        B = SD(volterra=vol, gamma=gs, **state_kwargs(stB))
+        B._vf_T = info['T']
+        judge_pn(ctx, am, B, stB, 'second-instance', ['args', 'stored'][i % 2])
+        judge_kept_pn(ctx, pn, st, exp, ref, 'leak:pn:second-instance', 'after a second object with other settings was built and evaluated in the same process (first object re-judged)')
+        stC = dict(st, x=xB, d=dB, gam=None, tau=np.zeros((3, 3)), alpha_in=0.0, alpha=(0.0,), beta=np.zeros((3, 3)), cutoff=1000.0,
+                   flags=dict(fullstress=True, cdiffelastic=False, cdiffsurface=True, cdiffstress=False))
+        Cn = SD(volterra=vol, gamma=gs)
+        Cn._vf_T = info['T']
+        judge_pn(ctx, am, Cn, stC, 'default-after-custom', 'args')
+        rec.close(0, Cn.tau, np.zeros((3, 3)), 'a default-constructed SDVPN object has the documented all-zero stress', 'leak:pn:default-after-custom')
+        rec.close(0, Cn.beta, np.zeros((3, 3)), 'a default-constructed SDVPN object has the documented all-zero beta', 'leak:pn:default-after-custom')
+        rec.count('own:pn:second-instance')
+
+    # -- editing one default-constructed object's stress / beta in place must not reach the others ---------
+    Pd = SD(volterra=vol, gamma=gs)
+    t_, b_ = Pd.tau, Pd.beta
+    try:
+        try:
+            t_[...] = new_settings(rng, 'tau')
+            b_[...] = new_settings(rng, 'beta')
+        except (ValueError, TypeError):
+            rec.count('own:pn:result-protected:tau')
+        Qd = SD(volterra=vol, gamma=gs)
+        rec.close(0, Qd.tau, np.zeros((3, 3)), 'a default-constructed SDVPN object has the documented all-zero stress whatever was done to the stress array of another object',
+                  'leak:pn:default-tau')
+        rec.close(0, Qd.beta, np.zeros((3, 3)), 'a default-constructed SDVPN object has the documented all-zero beta whatever was done to the beta array of another object',
+                  'leak:pn:default-beta')
+        rec.close(0, Cn.tau, np.zeros((3, 3)), 'an earlier default-constructed SDVPN object keeps its all-zero stress whatever is done to the stress array of another object',
+                  'leak:pn:default-tau')
+        rec.count('own:pn:default-edited')
+    finally:
+        with contextlib.suppress(Exception):
+            t_[...] = 0.0
+            b_[...] = 0.0
+
+
 def run(ctx):
     import atomman as am
     rec = ctx.rec
@@ -1315,7 +2009,8 @@ def run(ctx):
     import time
     groups = [('surfaces', ctx.pick(176, 1386), surface_case), ('gshist', ctx.pick(28, 224), gs_history_case), ('pn', ctx.pick(48, 640), pn_case),
               ('pnhist', ctx.pick(48, 384), pn_history_case), ('solve', ctx.pick(8, 32), solve_case),
-              ('halfwidth', ctx.pick(8, 16), halfwidth_case), ('arctan', ctx.pick(48, 480), arctan_case)]
+              ('halfwidth', ctx.pick(8, 16), halfwidth_case), ('arctan', ctx.pick(48, 480), arctan_case),
+              ('gsown', ctx.pick(56, 336), gs_alias_case), ('pnown', ctx.pick(40, 240), pn_alias_case)]
     for name, n, fn in groups:
         t0 = time.process_time()
         for i in ctx.cases(name, n):
@@ -1429,6 +2124,44 @@ def declare_floors(rec, ctx):
     f('halfwidth:scans', 6)
     f('halfwidth:grid-finer-than-b/10', 6)
     f('arctan', 40)
+    # -- who owns the numbers ---------------------------------------------------------------------------
+    for fm in gen.GS_ALIAS_FORMS:
+        f('own:gs:form:' + fm, 4)
+    f('own:gs:form:model-lists', 10)
+    for pt in gen.GS_ALIAS_PATHS:
+        f('own:gs:path:' + pt, 10)
+    for sc in gen.SCRAMBLES:
+        f('own:gs:scramble:' + sc, 12)
+        f('own:pn:scramble:' + sc, 8)
+    for k in gen.GS_ALIAS_ARGS:
+        f('own:gs:arg:' + k, 12 if k == 'delta' else 36)
+    f('own:gs:immutable-form', 4)
+    f('own:gs:result-overwritten', 150)
+    f('own:gs:returned-arrays', 50)
+    f('own:gs:query-arrays', 550)
+    f('own:gs:second-instance', 50)
+    f('own:gs:buffers-reused', 30)
+    f('own:gs:judged', 600)
+    f('own:gs:queryform:int-attempted', 300)          # int scalars / lists / arrays are counted when attempted: the calls may raise
+    for q in ('int-in-cell', 'tuple'):
+        f('own:gs:queryform:' + q, 120)
+    f('own:gs:queryform:float32', 60)
+    f('own:gs:queryform:int-conv', 50)
+    for fm in gen.PN_ALIAS_FORMS:
+        f('own:pn:form:' + fm, 6)
+    for pt in gen.PN_ALIAS_PATHS:
+        f('own:pn:path:' + pt, 8)
+    for k in ('tau', 'beta', 'x', 'disregistry'):
+        f('own:pn:arg:' + k, 22)
+    f('own:pn:arg:alpha', 16)
+    f('own:pn:arg:model-lists', 7)
+    f('own:pn:arg:gamma-data', 28)
+    f('own:pn:result-overwritten', 84)
+    f('own:pn:returned-arrays', 28)
+    f('own:pn:second-instance', 28)
+    f('own:pn:default-edited', 28)
+    f('own:pn:solved', 6)
+    f('own:pn:judged', 280)
     f('reach:GammaSurface.fit', 130)
     f('reach:GammaSurface.E_gsf', 380)
     f('reach:GammaSurface.delta', 230)
